@@ -168,9 +168,13 @@ def judge(ctx, s, domain, ref_toks=None, expect=None):
         if accepted:
             ctx.fail("accepts_nonsentence", case, f"{s!r} cannot be tokenised by the grammar but is accepted as {view['model']}", "lexical")
         return None
-    if view["tokens"] is not None and view["tokens"] != rt:
-        if accepted:
-            ctx.fail("lexer", case, f"{s!r}: scanner tokens {view['tokens']} differ from {rt}", "tokens")
+    if view["tokens"] is not None and accepted:
+        # lexer conservation: the scanner's lexemes are the input's tokens (nothing dropped, merged or invented) and
+        # literals carry the value their text denotes; the names of the token kinds are the library's business
+        got = [(t[1], t[2]) for t in view["tokens"]]
+        want = [(t[1], t[2]) for t in rt]
+        if got != want or [type(t[1]) for t in got] != [type(t[1]) for t in want]:
+            ctx.fail("lexer", case, f"{s!r}: scanner lexemes/literals {got} differ from {want}", "tokens")
     try:
         rti = rp.with_intercept(rt)
         strict, loose = rp.try_parse(rti, False), rp.try_parse(rti, True)
